@@ -1108,6 +1108,8 @@ pub(crate) fn tree_decompose_and_plan(
 ) -> Plan {
     macro_rules! fast_path {
         () => {{
+            #[cfg(egglog_verif)]
+            crate::verif_hooks::record_plan(ctx.atoms.len(), 1);
             let (header, instrs) = plan_stages(&ctx, strat);
             let stages = JoinStages {
                 instrs: Arc::new(instrs),
@@ -1160,6 +1162,8 @@ pub(crate) fn tree_decompose_and_plan(
 
     // Step 5: Build the final result block
     let result_block = build_result_block(&blocks);
+    #[cfg(egglog_verif)]
+    crate::verif_hooks::record_plan(ctx.atoms.len(), blocks.len());
 
     // Optimization the avoids the last materialization
     // let (blocks, result_block) = fuse_last_stage(blocks, result_block);
